@@ -293,9 +293,15 @@ func checkC10(c *sizeCase) *CheckResult {
 	}
 	sig := "c10:" + c.Direction
 	// A1: buffering is bounded by a small multiple of L
-	if st.MaxCap > 8*L+64*1024 {
-		res.violate("buffer_bound", sig+":pool", "limit %d: a pooled buffer grew to %d bytes (bound 8L+64KiB = %d); request wire/plain %d/%d bytes, blob %d, direction %s, %s -> %s, outcome %s",
-			L, st.MaxCap, 8*L+64*1024, reqWire, reqPlain, c.Payload, c.Direction, ct, bt, cv.outcome())
+	// (a message that arrives in the URL is in memory, whole, before the transcoder runs, and its
+	// re-encoded copy is built whole before it can be measured: the bound grows with the URL)
+	poolBound := 8*L + 64*1024
+	if out.Sent != nil {
+		poolBound += 2 * len(out.Sent.Target)
+	}
+	if st.MaxCap > poolBound {
+		res.violate("buffer_bound", sig+":pool", "limit %d: a pooled buffer grew to %d bytes (bound 8L+64KiB+2*URL = %d); request wire/plain %d/%d bytes, blob %d, direction %s, %s -> %s, outcome %s",
+			L, st.MaxCap, poolBound, reqWire, reqPlain, c.Payload, c.Direction, ct, bt, cv.outcome())
 	}
 	// (only meaningful while the scripted backend, which decompresses and decodes what it is given,
 	// has not run inside the measured window)
